@@ -1,7 +1,83 @@
 import KM.Driver.Core
-/-! Driver for C18 (stub until the property's model is built). -/
+import KM.Model.Html
+/-! Driver for C18.  Strings travel hex-encoded (see `KM.Util`). -/
 namespace KM.Driver.C18
+open KM.Util KM.Html
 
-def handler (_mode : String) : Option Handler := none
+def hx (l : List Char) : String := hex (String.ofList l)
+
+def escFn (s : String) : Option EscFn :=
+  if s == "html" then some .htmlEscapeString
+  else if s == "template" then some .templateHTMLEscapeString
+  else none
+
+def tagStr (t : Tag) : String :=
+  let attrs := t.attrs.map fun a => s!"{hx a.name}={hx (unescape a.value)}"
+  s!"{hx t.name} {boolStr t.selfClosing} {attrs.length}" ++
+    String.join (attrs.map fun a => " " ++ a)
+
+/-- model mode:
+* `esc <fn> <hex s>`      ↦ hex of the escaper's output
+* `build <fn> <hex norm>` ↦ hex of the raw `<INPUT …>` field for the already normalised
+  destination (the normalisation is a parameter of the model; the harness reports it)
+* `tok <hex seg>`         ↦ `tag <hex name> <selfclosing> <n> {<hex attr>=<hex decoded value>} rest <hex>`
+  or `none` — the start tag at the head of `seg` as the model tokenizer reads it
+* `b64 <hex bytes>`       ↦ hex of the base64 text -/
+def model : List String → String
+  | ["esc", f, h] =>
+    match escFn f, unhex h with
+    | some fn, some s => hx (escWith fn s.toList)
+    | _, _ => "bad-op"
+  | ["build", f, h] =>
+    match escFn f, unhex h with
+    | some fn, some s => hx (loginInput fn id s.toList)
+    | _, _ => "bad-op"
+  | ["tok", h] =>
+    match unhex h with
+    | some s =>
+      match tokenizeStartTag s.toList with
+      | some (t, rest) => s!"tag {tagStr t} rest {hx rest}"
+      | none => "none"
+    | none => "bad-op"
+  | ["b64", h] =>
+    match unhexB h with
+    | some bs => hx (b64 bs)
+    | none => "bad-op"
+  | _ => "bad-op"
+
+/-- judge mode (the predicates of the theorems, applied to what the implementation emitted):
+* `input <hex norm> <hex seg>` — `inputOK seg norm` (`c18_input_ok`): the segment of the
+  response that starts at the hidden input is exactly that one tag, nothing follows it on its
+  line, and its value decodes to the normalised destination
+* `inert <hex v>` — `v` is free of `" < > '` (`c18_esc_inert`, `c18_base64_inert`)
+* `canary <n elements> <n attributes>` — number of canary-named elements / attributes the
+  HTML5 tokenizer found in a response -/
+def judge : List String → String
+  | ["input", hn, hs] =>
+    match unhex hn, unhex hs with
+    | some n, some s =>
+      if inputOK s.toList n.toList then "ok"
+      else
+        match tokenizeStartTag s.toList with
+        | some (t, rest) =>
+          s!"viol attrs={t.attrs.length} rest={hx rest} value={hx (unescape ((t.attrs.getLast?.map (·.value)).getD []))}"
+        | none => "viol no-tag"
+    | _, _ => "bad-op"
+  | ["inert", h] =>
+    match unhex h with
+    | some s =>
+      if s.toList.any (fun c => c == '"' || c == '<' || c == '>' || c == '\'') then "viol markup-char"
+      else "ok"
+    | none => "bad-op"
+  | ["canary", e, a] =>
+    match e.toNat?, a.toNat? with
+    | some ne, some na => if ne == 0 && na == 0 then "ok" else s!"viol elements={ne} attributes={na}"
+    | _, _ => "bad-op"
+  | _ => "bad-op"
+
+def handler (mode : String) : Option Handler :=
+  if mode == "model" then some (.pure model)
+  else if mode == "judge" then some (.pure judge)
+  else none
 
 end KM.Driver.C18
